@@ -155,7 +155,8 @@ pub(super) fn animate<T: Component>(
         // from the `timeline` struct anymore after the `update`.
         let timeline_delay = timeline.delay();
         let timeline_duration = timeline.duration();
-        if animator.state == AnimationState::Playing {
+        let was_playing = animator.state == AnimationState::Playing;
+        if was_playing {
             if let Ok(mut target) = targets.get_mut(entity) {
                 timeline.update(&mut target, position_secs);
             }
@@ -170,6 +171,16 @@ pub(super) fn animate<T: Component>(
             state_changed = true;
         }
         if position_secs >= timeline_duration && animator.state != AnimationState::Ended {
+            if !was_playing {
+                // The whole animation elapsed before a single frame was evaluated in the `Playing`
+                // state, e.g. one very long frame during the delay. The target must still end up
+                // with the final values.
+                if let (Some(timeline), Ok(mut target)) =
+                    (animator.timeline.as_ref(), targets.get_mut(entity))
+                {
+                    timeline.update(&mut target, position_secs);
+                }
+            }
             animator.state = AnimationState::Ended;
             state_changed = true;
         }
